@@ -785,6 +785,9 @@ func (p *proxy) forwardProduce(ctx context.Context, header *protocol.RequestHead
 					}
 				}
 			}
+			// A broker reply that leaves out a partition it was sent must not make
+			// that partition vanish from the client's reply.
+			addErrorForMissingPartitions(merged, r.subReq, r.subResp, protocol.REQUEST_TIMED_OUT)
 			if r.subResp.ThrottleMillis > merged.ThrottleMillis {
 				merged.ThrottleMillis = r.subResp.ThrottleMillis
 			}
@@ -927,6 +930,33 @@ func addErrorForAllPartitions(resp *kmsg.ProduceResponse, req *kmsg.ProduceReque
 
 // brokerIDToAddr resolves broker ID to address. Triggers a metadata fetch on
 // cache miss.
+// addErrorForMissingPartitions adds an error entry for every partition of req
+// that the broker's reply does not mention.
+func addErrorForMissingPartitions(resp *kmsg.ProduceResponse, req *kmsg.ProduceRequest, got *kmsg.ProduceResponse, errorCode int16) {
+	answered := make(map[string]map[int32]bool, len(got.Topics))
+	for _, topic := range got.Topics {
+		if answered[topic.Topic] == nil {
+			answered[topic.Topic] = make(map[int32]bool, len(topic.Partitions))
+		}
+		for _, part := range topic.Partitions {
+			answered[topic.Topic][part.Partition] = true
+		}
+	}
+	for _, topic := range req.Topics {
+		for _, part := range topic.Partitions {
+			if answered[topic.Topic][part.Partition] {
+				continue
+			}
+			tr := findOrAddTopicResponse(resp, topic.Topic)
+			tr.Partitions = append(tr.Partitions, kmsg.ProduceResponseTopicPartition{
+				Partition:  part.Partition,
+				ErrorCode:  errorCode,
+				BaseOffset: -1,
+			})
+		}
+	}
+}
+
 func (p *proxy) brokerIDToAddr(ctx context.Context, brokerID string) string {
 	p.brokerAddrMu.RLock()
 	addr := p.brokerAddrs[brokerID]
